@@ -29,6 +29,8 @@ ASSUMPTIONS = [
 TAGS = ["#", "#", "dsp", "BRAM", "r_1"]
 SIDES = [F(1, 4), F(1, 2), F(3, 4), F(1), F(1), F(3, 2), F(2), F(2), F(5, 2), F(3), F(7, 2), F(4), F(5)]
 FEPS = 1e-6
+CEPS = 1e-9          # rounding allowance of the repaired code (fixes/C03-ratio-rounding.diff)
+SIDES_DEC = [F(3, 10), F(1, 2), F(7, 10), F(1), F(6, 5), F(3, 2), F(2), F(21, 10), F(5, 2), F(33, 10)]
 
 
 # --------------------------------------------------------------------------
@@ -91,12 +93,24 @@ def disjoint_boxes(rng, W, H, q, n, attach=True):
     return out
 
 
-def gen_modules(rng, W, H, q, features):
+def gen_modules(rng, W, H, q, features, sides=SIDES, lattice=None):
     modules = []
     for i in range(rng.choice([0, 1, 1, 2, 2, 3, 4])):
-        kind = rng.choices(["square", "soft", "hard"], [5, 3, 3])[0]
-        if kind == "square":
-            s = rng.choice(SIDES)
+        kind = rng.choices(["square", "soft", "hard", "tile"], [5, 3, 3, 2 if lattice else 0])[0]
+        if kind == "tile":
+            # a soft module whose rectangles tile a lattice-aligned box exactly (ratio 1 in the cells it fills)
+            xs, ys = lattice
+            i0, j0 = rng.randrange(len(xs) - 1), rng.randrange(len(ys) - 1)
+            i1, j1 = rng.randrange(i0 + 1, len(xs)), rng.randrange(j0 + 1, len(ys))
+            x0, x1, y0, y1 = xs[i0], xs[i1], ys[j0], ys[j1]
+            n = int((x1 - x0) / q)
+            cuts = sorted({x0, x1} | {x0 + rng.randrange(1, n) * q for _ in range(rng.choice([1, 1, 2])) if n > 1})
+            boxes = [[a, y0, b, y1] for a, b in zip(cuts, cuts[1:])]
+            m = {"name": f"T{i}", "kind": "soft", "area": sum((b[2] - b[0]) * (b[3] - b[1]) for b in boxes),
+                 "center": None, "rects": [box2rect(b) for b in boxes]}
+            features.append("tile")
+        elif kind == "square":
+            s = rng.choice(sides)
             where = rng.random()
             if where < 0.2:                                 # around a corner / border of the die: sticks out
                 c = [rng.choice([F(0), W, W - s / 2, s / 4]), rng.choice([F(0), H, H - s / 4, s / 2])]
@@ -180,15 +194,18 @@ def gen_direct(rng):
         r = box2rect(b)
         cells.append({"cx": r[0], "cy": r[1], "w": r[2], "h": r[3], "fixed": rng.random() < 0.06, "hard": False,
                       "region": rng.choice(["_", "_", "dsp"]), "loc": "NOPOLY"})
-    return {"form": "direct", "cells": cells, "modules": modules, "inc0": rng.random() < 0.4,
+    return {"stream": "exact", "form": "direct", "cells": cells, "modules": modules, "inc0": rng.random() < 0.4,
             "features": sorted(set(features)), "regions": [], "refine": None}
 
 
-def gen_case(rng):
-    if rng.random() < 0.2:
+def gen_case(rng, stream=None):
+    if stream is None:
+        stream = rng.choices(["exact", "direct", "decimal"], [62, 18, 20])[0]
+    if stream == "direct":
         return gen_direct(rng)
+    dec = stream == "decimal"
     nx, ny = rng.choice([1, 2, 3, 3, 4, 5]), rng.choice([1, 2, 3, 3, 4, 5])
-    q = rng.choice([F(1, 8), F(1, 4), F(1, 2), F(1, 2)])
+    q = F(1, 10) if dec else rng.choice([F(1, 8), F(1, 4), F(1, 2), F(1, 2)])
     xs = c01.lattice_lines(rng, nx, q, 60, narrow=False)
     ys = c01.lattice_lines(rng, ny, q, 60, narrow=False)
     W, H = xs[-1], ys[-1]
@@ -201,7 +218,7 @@ def gen_case(rng):
         if r < 0.6:
             nr, nc = rng.choice([1, 2, 2, 4, 3]), rng.choice([1, 2, 2, 4, 3])
             dy = lambda v: (v.denominator & (v.denominator - 1)) == 0 and v.denominator <= 1024
-            if nr + nc > 2 and dy(W / nc) and dy(H / nr) and dy(W / nc / 2) and dy(H / nr / 2):
+            if nr + nc > 2 and (dec or (dy(W / nc) and dy(H / nr) and dy(W / nc / 2) and dy(H / nr / 2))):
                 refine = ["grid", nr, nc]
     else:
         rects = c01.place_regions(rng, nx, ny, rng.randrange(0, 7), pattern)
@@ -223,11 +240,11 @@ def gen_case(rng):
         modules.append({"name": f"F{k}", "kind": "fixed", "rects": [box2rect(b) for b in mine]})
         k += 1
     features = []
-    modules += gen_modules(rng, W, H, q, features)
+    modules += gen_modules(rng, W, H, q, features, SIDES_DEC if dec else SIDES, (xs, ys))
     rng.shuffle(modules)
     if not modules:
         modules.append({"name": "S0", "kind": "soft", "area": F(1), "center": [W / 2, H / 2], "rects": []})
-    return {"form": "die", "W": W, "H": H, "regions": regions, "modules": modules, "refine": refine,
+    return {"stream": stream, "form": "die", "W": W, "H": H, "regions": regions, "modules": modules, "refine": refine,
             "inc0": rng.random() < 0.4, "features": sorted(set(features))}
 
 
@@ -361,8 +378,8 @@ def is_pow2(x):
 
 
 def to_coq(case, obs):
-    if obs["setup"] != "ok":
-        return "true"
+    if obs["setup"] != "ok" or case.get("stream") == "decimal":
+        return "true"                     # decimal stream: oracle only (the theorems speak about exact arithmetic)
     table = []
     for m in obs["modules"]:
         if not m["rects"]:
@@ -370,7 +387,7 @@ def to_coq(case, obs):
             if s is None:
                 raise ValueError("area of a module without rectangles is not a perfect square")
             table.append(f"({gq(m['area'])}, {gq(s)})")
-    call = (f"initial_allocation (table_sqrt {glist(table)}) {gq(FEPS)} {gq(obs['aeps'])} {gbool(case['inc0'])} "
+    call = (f"initial_allocation (table_sqrt {glist(table)}) {gq(FEPS)} {gq(CEPS)} {gq(obs['aeps'])} {gbool(case['inc0'])} "
             f"{glist([fr.grect(r) for r in obs['refinable']])} {glist([fr.grect(r) for r in obs['fixed']])} "
             f"{glist([gmod(m) for m in obs['modules']])}")
     if obs["v"] == "reject":
@@ -403,16 +420,22 @@ def barea(b):
     return (b[2] - b[0]) * (b[3] - b[1])
 
 
-def shape_of(m):
-    """the module's shape: its rectangles, or the square of its area around its centre"""
+def shape_of(m, cm=None):
+    """the module's shape: its rectangles (as the netlist holds them), or the square of its area around its
+    centre (from the generated description `cm`, so that the root is exact also for decimal sides)"""
     if m["rects"]:
         return [rbox(r) for r in m["rects"]]
-    if m["center"] is None:
+    if cm is not None:
+        area = sum(cm["area"].values()) if isinstance(cm["area"], dict) else cm["area"]
+        centre = cm.get("center")
+    else:
+        area, centre = m["area"], m["center"]
+    if centre is None:
         return None
-    s = qsqrt(m["area"])
+    s = qsqrt(area)
     if s is None or s <= 0:
         return None
-    cx, cy = core.frac(m["center"][0]), core.frac(m["center"][1])
+    cx, cy = core.frac(centre[0]), core.frac(centre[1])
     return [(cx - s / 2, cy - s / 2, cx + s / 2, cy + s / 2)]
 
 
@@ -422,14 +445,18 @@ def oracle(case, obs):
     mods = obs["modules"]
     if any(m["terminal"] for m in mods):
         return None
+    dec = case.get("stream") == "decimal"
+    tol = F(1, 10 ** 9) if dec else TOL       # on ratios and areas
+    tola = F(1, 10 ** 9) if dec else F(0)     # an overlap up to this area is rounding noise of decimal coordinates
+    cmods = {m["name"]: m for m in case["modules"]}
     shapes = {}
     for m in mods:
-        sh = shape_of(m)
+        sh = shape_of(m, cmods.get(m["name"]))
         if sh is None:
             return None                                     # no shape defined: outside the property
         for i in range(len(sh)):
             for j in range(i + 1, len(sh)):
-                if box_ov(sh[i], sh[j]) > 0:
+                if box_ov(sh[i], sh[j]) > tola:
                     return None                             # own rectangles overlap: outside the property
         shapes[m["name"]] = sh
     incells = obs["refinable"] + obs["fixed"]
@@ -438,7 +465,7 @@ def oracle(case, obs):
         return None                                         # no cell at all
     for i in range(len(allc)):
         for j in range(i + 1, len(allc)):
-            if box_ov(allc[i], allc[j]) > 0:
+            if box_ov(allc[i], allc[j]) > tola:
                 return None
     fixed_mods = [m for m in mods if m["fixed"]]
     fixedc = [b for m in fixed_mods for b in shapes[m["name"]]]
@@ -456,11 +483,11 @@ def oracle(case, obs):
     def avail(m):
         return shapes[m["name"]] if m["fixed"] else refin
 
-    touches = {m["name"]: any(covered(c, m["name"]) > 0 for c in avail(m)) for m in mods}
+    touches = {m["name"]: any(covered(c, m["name"]) > tola for c in avail(m)) for m in mods}
     if case["inc0"] and not all(touches.values()):
         return None                                         # zero entries only when every module touches some cell
     if obs["v"] != "accept":
-        return f"a valid die/netlist pair was rejected: {obs.get('msg', '')[:140]}"
+        return f"a valid die/netlist pair was rejected{' (decimal coordinates)' if dec else ''}: {obs.get('msg', '')[:140]}"
     cells = obs["cells"]
     out = []
     for c in cells:
@@ -481,7 +508,7 @@ def oracle(case, obs):
     fixed_set = set(fixedc)
     for m in fixed_mods:
         own = sorted(shapes[m["name"]])
-        got = sorted(b for b, al, _ in out if al.get(m["name"], F(0)) > 0)
+        got = sorted(b for b, al, _ in out if al.get(m["name"], F(0)) > (tol if dec else 0))
         if got != own:
             return "fixed-ownership: a fixed module is allocated to cells other than exactly its own rectangles"
     for b, al, fx in out:
@@ -500,18 +527,18 @@ def oracle(case, obs):
             want = F(0) if m["fixed"] else covered(b, m["name"]) / barea(b)
             got = al.get(m["name"])
             if got is None:
-                if want > 0:
+                if want * barea(b) > tola:
                     return "listing: a module covering part of a cell is not listed in it"
                 continue
-            if abs(got - want) > TOL:
+            if abs(got - want) > tol:
                 return (f"ratio: cell {tuple(map(float, b))} module {m['name']}: recorded {float(got)!r}, "
                         f"covered fraction {float(want)!r}")
-            if want == 0 and not case["inc0"]:
+            if want == 0 and not case["inc0"] and not dec:
                 return "listing: a module is listed in a cell it does not cover"
     for m in mods:
         got = sum((al.get(m["name"], F(0)) * barea(b) for b, al, _ in out), F(0))
         want = sum((covered(c, m["name"]) for c in avail(m)), F(0))
-        if abs(got - want) > TOL * max(F(1), want):
+        if abs(got - want) > tol * max(F(1), want):
             return f"area: module {m['name']} is allocated {float(got)!r}, its shape covers {float(want)!r} of its cells"
     return None
 
@@ -519,6 +546,8 @@ def oracle(case, obs):
 def failure_key(case, why):
     why = why or ""
     if "valid die/netlist pair was rejected" in why:
+        if "(decimal coordinates)" in why and "Invalid allocation" in why:
+            return "C03/valid-rejected-ratio-rounding"
         return "C03/valid-rejected"
     if why.startswith("fixed-ownership") or "marked fixed" in why:
         return "C03/fixed-ownership"
@@ -554,6 +583,8 @@ def shrink(case):
         if len(m["rects"]) > 1:
             for j in range(len(m["rects"])):
                 m2 = dict(m, rects=m["rects"][:j] + m["rects"][j + 1:])
+                if m["name"].startswith("T"):
+                    continue                    # a tiling module is shrunk as a whole
                 if m["kind"] == "soft":
                     m2["area"] = sum((r[2] * r[3] for r in m2["rects"]), F(0))
                 yield dict(case, modules=mods[:i] + [m2] + mods[i + 1:])
@@ -585,6 +616,7 @@ def run(ctx, out, replay=None):
         for f in c.get("features", []):
             out.count("has:" + f)
         out.count("refine:" + (c["refine"][0] if c["refine"] else "none"))
+        out.count("stream:" + ("direct" if c.get("form") == "direct" else c.get("stream", "exact")))
         out.count("include_zero" if c["inc0"] else "no_zero")
         for m in c["modules"]:
             out.count("module:" + (m["kind"] if m["rects"] else "square"))
